@@ -333,6 +333,11 @@ func (rm *RequestManager) filterResponsesForPeer(responses []gsmsg.GraphSyncResp
 func (rm *RequestManager) processExtensions(responses []gsmsg.GraphSyncResponse, p peer.ID) []gsmsg.GraphSyncResponse {
 	remainingResponses := make([]gsmsg.GraphSyncResponse, 0, len(responses))
 	for _, response := range responses {
+		// a response from a peer other than the one the request was sent to must
+		// not reach the response hooks (or be able to cancel the request)
+		if requestStatus, ok := rm.inProgressRequestStatuses[response.RequestID()]; ok && requestStatus.p != p {
+			continue
+		}
 		success := rm.processExtensionsForResponse(p, response)
 		if success {
 			remainingResponses = append(remainingResponses, response)
